@@ -825,6 +825,39 @@ func (r *runner) checkAt(h uint32, when string) *viol {
 	if d := diffLite(src.lite[h], lo, src.stor[h], st); len(d) != 0 {
 		return &viol{Oracle: "state-differs", What: fmt.Sprintf("%s: the synced node at height %d differs from the source at that height", when, h), Diff: d}
 	}
+	// the traceable blocks (what the blocks stage is for): bodies and transactions
+	// must be there, as on the source
+	var bv *viol
+	_, pan := guard(func() error {
+		bc := r.n.BC
+		mtb := bc.GetMaxTraceableBlocks()
+		for i := h; i >= 1 && i+mtb > h; i-- {
+			want := src.block(i)
+			got, err := bc.GetBlock(bc.GetHeaderHash(i))
+			if err != nil {
+				bv = &viol{Oracle: "traceable-block-missing", What: fmt.Sprintf("%s at height %d: GetBlock(%d): %v", when, h, i, err)}
+				return nil
+			}
+			if got.Hash() != want.Hash() || len(got.Transactions) != len(want.Transactions) {
+				bv = &viol{Oracle: "traceable-block-differs", What: fmt.Sprintf("%s at height %d: block %d has %d transactions (hash %s), the source's has %d (hash %s)", when, h, i, len(got.Transactions), got.Hash().StringLE(), len(want.Transactions), want.Hash().StringLE())}
+				return nil
+			}
+			for _, tx := range want.Transactions {
+				_, th, err := bc.GetTransaction(tx.Hash())
+				if err != nil || th != i {
+					bv = &viol{Oracle: "traceable-transaction-missing", What: fmt.Sprintf("%s at height %d: GetTransaction(%s of block %d) = height %d, %v", when, h, tx.Hash().StringLE(), i, th, err)}
+					return nil
+				}
+			}
+		}
+		return nil
+	})
+	if pan != nil {
+		return &viol{Oracle: "panic:traceable-blocks", What: fmt.Sprintf("%s: reading blocks: panic: %v", when, pan)}
+	}
+	if bv != nil {
+		return bv
+	}
 	md, err := mptDigest(r.n)
 	if err != nil {
 		return &viol{Oracle: "state-trie-unreadable", What: fmt.Sprintf("%s at height %d: enumerating the state trie from the local root failed: %v", when, h, err)}
